@@ -184,7 +184,87 @@ def recycle_check(prop, tier, seed):
     return R.report(prop, mcs, res, tier, seed, t0, ASSUME_RECYCLE)
 
 
+ASSUME_CONFIGS = ASSUME_HANDLES + [
+    "configurations compared: allocator parity {even, odd} x profile {debug, release} x features {default, no-default-features, extra-platforms via the shim}; the harness itself always uses std, only the bytes crate is built without it",
+]
+
+
+def config_check(prop, tier, seed):
+    from . import configs as G
+    from . import cursors as K
+    t0 = time.time()
+    q = tier == "quick"
+    # programs: the design model's edge cover sample + a fixed random walk
+    ops, depth, handles, allocs, maxlen = design_cfg("C01", tier)
+    mc = D.run_model("C16_mc", depth, handles, allocs, maxlen, ops, sample_k=300 if q else 60, seed=seed)
+    pf = os.path.join(C.workdir("design"), "C16_programs.ndjson")
+    D.write_programs(mc["programs"], pf, limit=2000 if q else 20000, seed=seed)
+    rand = ["--random", "--seed", str(seed * 1000 + 16), "--nprog", "150" if q else "1500", "--steps", "40", "--maxh", "6", "--maxlen", "12",
+            "--profile", "contract", "--adjacent-every", "0"]
+    cfgs = [("debug", 0, None, False), ("debug", 1, None, False), ("release", 0, None, False), ("release", 1, None, False),
+            ("release", 0, None, True), ("release", 1, ["std", "shim"], False)]
+    if not q:
+        cfgs += [("debug", 1, None, True), ("debug", 0, ["std", "shim"], False), ("release", 1, None, True), ("debug", 0, None, True),
+                 ("release", 0, ["std", "shim"], False), ("debug", 1, ["std", "shim"], False)]
+    results, comps = [], []
+    ref = {}
+    for (profile, par, feats, nodef) in cfgs:
+        name = "%s_p%d_%s" % (profile, par, "nostd" if nodef else ("shim" if feats else "default"))
+        for kind, ga in (("gen", ["--programs", pf]), ("rand", rand)):
+            r = H.run_config("C16_%s_%s" % (name, kind), profile, ga + ["--parity", str(par)], features=feats, no_default=nodef)
+            r["features"] = ["no-default-features"] if nodef else (feats or ["default"])
+            results.append(r)
+            if kind not in ref:
+                ref[kind] = r
+            else:
+                comps.append(G.compare("C16_%s_%s_vs_ref" % (name, kind), ref[kind]["trace"], r["trace"]))
+    # cursor programs (typed getters incl. nbytes = 0 and sign patterns): debug vs release
+    names = K.method_names()
+    getters = [m for m in names if m.startswith("get_") or m.startswith("try_get_")]
+    progs, st = K.generate("C16_getters", "buf", 1, 2, 1, [0, 1, 9], ["get"], getters, list(range(0, 9)), 400 if q else 40, seed)
+    progs = pick(progs, 3000 if q else 30000, seed)
+    ca = K.run_and_validate("C16_cur_debug", progs, profile="debug")
+    cb = K.run_and_validate("C16_cur_release", progs, profile="release")
+    comps.append(G.compare("C16_cur_release_vs_debug", ca["trace"], cb["trace"]))
+    # verdict: any diverging program
+    rc = 0
+    nnew = 0
+    shown = 0
+    for c in comps:
+        for v in c["violations"]:
+            nnew += 1
+            if shown >= 5:
+                continue
+            shown += 1
+            path = C.save_replay(prop, "%s_p%d" % (c["tag"], v["pid"]), {"property": prop, "kind": "configs", "comparison": c["tag"], "pid": v["pid"],
+                                                                         "first_diverging_event": v["i"], "op": v["op"], "zip": c["zip"]})
+            print("VIOLATION property=%s replay=%s" % (prop, path))
+            print("  law cfg_equal: configurations diverge at event %d (%s) of program %d in %s" % (v["i"], v["op"], v["pid"], c["tag"]))
+            rc = 1
+    # each trace must also satisfy the laws on its own (reported under the owning property by its own check; here only counted)
+    own = sum(len(r["violations"]) for r in results)
+    cov = {
+        "states": mc["distinct"] + sum(c["tlc"]["distinct"] for c in comps),
+        "transitions": mc["generated"] + sum(c["tlc"]["generated"] for c in comps),
+        "traces_validated_against_impl": len(results) + 2,
+        "samples": [{"comparison": c["tag"], "steps": c["steps"], "diverging_programs": len(c["violations"])} for c in comps[:4]],
+        "evaluations": sum(c["steps"] for c in comps),
+        "distinct_nontrivial": len(comps) * 2,
+        "rule": "one evaluation = one step of one program compared between two configurations by spec/ConfigEquiv.tla (projection: operation, outcome, "
+                "returned values, per live handle type/length/contents/is_unique); distinct = configurations paired with the reference",
+        "configurations": [{"tag": r["tag"], "profile": r["profile"], "features": r["features"], "programs": r["programs"], "events": r["events"],
+                            "law_violating_events": len(r["violations"])} for r in results],
+        "law_violations_in_single_traces": own,
+        "design_model": {k: mc[k] for k in ("distinct", "generated", "depth")},
+        "exhaustive": False,
+    }
+    C.write_evidence(prop, tier, seed, "model_checking", cov, ASSUME_CONFIGS, time.time() - t0, nnew)
+    return rc
+
+
 def run(prop, tier, seed):
+    if prop == "C16":
+        return config_check(prop, tier, seed)
     if prop == "C18":
         return recycle_check(prop, tier, seed)
     if prop in ("C14", "C15"):
